@@ -353,7 +353,11 @@ impl<'t, 'd> GGen<'t, 'd> {
             3 => G::OrNot(b(self.gen(d, guarded))),
             4 => G::Not(b(self.gen(d, guarded))),
             5 => {
+                // user-state pushes are not placed under and_is / rewind: the input is moved backwards and
+                // forwards again there, which only snapshot-style inspector states (C18) can follow
+                let sp = std::mem::replace(&mut self.cfg.state_push, false);
                 let a = self.gen(d, guarded);
+                self.cfg.state_push = sp;
                 let save = (self.cfg.validate, self.cfg.recover, self.cfg.state_push);
                 if !self.cfg.emit_in_andis_rhs {
                     self.cfg.validate = false;
@@ -364,7 +368,12 @@ impl<'t, 'd> GGen<'t, 'd> {
                 (self.cfg.validate, self.cfg.recover, self.cfg.state_push) = save;
                 G::AndIs(b(a), b(c2))
             }
-            6 => G::Rewind(b(self.gen(d, guarded))),
+            6 => {
+                let sp = std::mem::replace(&mut self.cfg.state_push, false);
+                let a = self.gen(d, guarded);
+                self.cfg.state_push = sp;
+                G::Rewind(b(a))
+            }
             7 => {
                 if self.t.chance(1, 2) {
                     let open = self.simple_consuming();
